@@ -37,6 +37,16 @@ def apply_patch(wt, patch):
     return "re-based"
 
 
+ANCHORS = None
+
+
+def props_for(rid, props):
+    if ANCHORS is None:
+        return props
+    touched = {l[6:].strip() for l in (V / "rewrites" / rid / "patch.diff").read_text().splitlines() if l.startswith("+++ b/")}
+    return [p for p in props if touched & set(ANCHORS.get(p, []))]
+
+
 def worker(idx, ids, props, results):
     vdir = Path(f"/work/rr-{os.getpid()}-{idx}")
     sh(f"git -C {V} worktree remove --force {vdir}")
@@ -57,7 +67,8 @@ def worker(idx, ids, props, results):
                     if st == "re-based":
                         rc, out = sh("/venv/bin/python -m pytest -q -p no:cacheprovider --timeout=900 -x", cwd=wt, env=dict(os.environ, PYTHONPATH=wt))
                         res["suite"] = "passes" if rc == 0 else "FAILS"
-                    for p in props:
+                    res["checks"] = props_for(rid, props)
+                    for p in res["checks"]:
                         rc, out = sh(f"./check {p} --tier quick", cwd=vdir, env=dict(os.environ, HAP_REPO=wt, VERIF_SEED="0"))
                         if rc != 0:
                             lines = [l[:260] for l in out.splitlines() if l.startswith(("VIOLATION", "  C", "  disagreement", "  proof"))][:5]
@@ -76,8 +87,16 @@ def main():
     ap = argparse.ArgumentParser()
     ap.add_argument("--jobs", type=int, default=6)
     ap.add_argument("--only")
+    ap.add_argument("--props", help="comma-separated property ids (default: every claimed check)")
+    ap.add_argument("--anchored", action="store_true",
+                    help="per rewrite, run only the checks of properties anchored in a file the rewrite touches (model_map.json)")
+    ap.add_argument("--out", default=str(V / "rewrites" / "REGRESSION.json"))
     a = ap.parse_args()
     props = [c["property_id"] for c in json.loads((V / "MANIFEST.json").read_text())["checks"]]
+    if a.props:
+        props = [p for p in props if p in a.props.split(",")]
+    global ANCHORS
+    ANCHORS = json.loads((V / "model_map.json").read_text())["anchors"] if a.anchored else None
     ids = sorted(d.name for d in (V / "rewrites").iterdir() if (d / "patch.diff").exists())
     if a.only:
         ids = [i for i in ids if i in a.only.split(",")]
@@ -85,7 +104,7 @@ def main():
     results = {}
     with ThreadPoolExecutor(a.jobs) as ex:
         list(ex.map(lambda t: worker(t[0], t[1], props, results), enumerate(parts)))
-    out = V / "rewrites" / "REGRESSION.json"
+    out = Path(a.out)
     old = json.loads(out.read_text()) if out.exists() and a.only else {}
     old.update(results)
     out.write_text(json.dumps(dict(sorted(old.items())), indent=1) + "\n")
